@@ -153,6 +153,8 @@ let pass_case debug line =
     | [n] -> n, "1" | [n; a] -> n, a | _ -> "", "1" in
   if name = "?" then   (* list the wrappers of the table, in table order *)
     String.concat " " (List.map (fun f -> fst (List.find (fun (_, g) -> g = f) uv_names)) all_uvfn)
+  else if name = "uv_once_racing" then   (* two uv_once calls on one guard, one while the init runs: both are pthread_once *)
+    let c = p_name (passthrough UvOnce) ^ ":1" in c ^ " " ^ c
   else match List.assoc_opt name uv_names with
     | Some f -> String.concat " " (List.map (fun p -> p_name p ^ ":0") (passthrough_pre f)
                                    @ [p_name (passthrough f) ^ ":1" ^ req_string (init_request debug f (z_of_string arg))])
